@@ -10,7 +10,11 @@
 //    node_locate; mpt_parse_node of a generated configuration text (options, sections to depth 3, comments, blank lines;
 //    also texts without any element: empty, blank-only, comment-only) into a live node with or without children, names
 //    overlapping / extending / disjoint from the present children. It runs in the turns in which the drawn operation has
-//    nothing to work on (the operation weights are untouched: corpus files decode as before).
+//    nothing to work on (the operation weights are untouched: corpus files decode as before). In the same turns, and when
+//    a move finds only one tree, a second operation follows while bytes are left: mpt_node_parse (FILE from fmemopen)
+//    reloading a populated or empty node; mpt_node_clear of children parked under a stack node while they still name
+//    their old parent, which already has a new child or none (what mpt_node_parse does); manual surgery (a list tail cut
+//    off and hung below another node by forward links / children head only) followed by mpt_gnode_relink.
 //    Preconditions taken from the callers in /repo: the inserted node is detached (no parent/next/prev), the target is
 //    not inside the inserted node's own subtree, move works between different trees with dst = head of the target list.
 // O: after every step a full walk over all live nodes (see observe()): next/prev agree, siblings share the parent,
@@ -591,7 +595,7 @@ static void run(Ctx &c) {
     // (the weights stay as they are: the corpus files are decoded through them. mpt_parse_node takes the turns in which a
     //  drawn operation has nothing to work on, see `idle`)
     size_t op = c.weighted({6, 8, 8, 8, 6, 6, 8, 8, 4, 4, 3, 3, 2, 2, 3, 2});
-    bool idle = false;
+    bool idle = false, extra = false;
     switch (op) {
       case 0: {  // new
         if (w.created >= MaxCreated) {  // population used up: release a detached subtree instead
@@ -697,7 +701,7 @@ static void run(Ctx &c) {
         break;
       }
       case 7: {  // move / merge between two trees
-        if (m.tops.size() < 2) { if (w.created < MaxCreated) newNode(c, w); c.label("skip:one-tree"); break; }
+        if (m.tops.size() < 2) { if (w.created < MaxCreated) newNode(c, w); c.label("skip:one-tree"); extra = true; break; }
         E = m;
         // source list: a top-level list or the children of a node
         int scomp = (int)c.pick(m.tops.size());
@@ -938,7 +942,7 @@ static void run(Ctx &c) {
         break;
       }
     }
-    if (!idle) continue;
+    if (idle)
     {  // mpt_parse_node: parse a configuration text into a node, merging with the children it has
       live = m.liveSlots();
       if (live.empty()) continue;
@@ -997,6 +1001,102 @@ static void run(Ctx &c) {
       if (!gone.empty()) c.label("parse:supersedes");
       if (!W.empty()) c.label("parse:keeps-old");
       if (deep) c.label("parse:merges-children");
+      extra = true;
+    }
+    // a second operation in the turns that would otherwise be idle (only when bytes are left: cases that end here
+    // decode as before): reload with mpt_node_parse, mpt_node_clear of children parked under a stack node the way
+    // mpt_node_parse does it, manual list surgery followed by mpt_gnode_relink
+    if (!extra || !c.more()) continue;
+    live = m.liveSlots();
+    if (live.empty()) continue;
+    E = m;
+    std::vector<int> owners2;
+    for (int s : live) if (!m.n[s].kids.empty()) owners2.push_back(s);
+    switch (c.weighted({3, 2, 3})) {
+      case 0: {  // mpt_node_parse: replaces the children of the node by what the text describes
+        int R = (!owners2.empty() && c.chance(200)) ? pickOf(c, owners2) : pickOf(c, live);
+        std::vector<std::string> names = {"a", "b", "c", "ab", "d"};
+        for (int k : m.n[R].kids) if (m.n[k].named && m.n[k].name.size() <= 2 && m.n[k].name.find('.') == std::string::npos) names.push_back(m.n[k].name);
+        std::string text;
+        std::vector<PNode> tree;
+        if (c.chance(50)) { text = c.choose<const char *>({"\n", "\n\n", "# nothing\n", "  \n# a = 1\n\n", "#", "\t \n"}); c.label("reload:no-elements"); }
+        else { tree = drawPTree(c, names, 0, 4); renderPTree(c, tree, text, 0); }
+        std::vector<int> gone;
+        for (int k : m.n[R].kids) m.subtree(k, gone);
+        size_t fresh = pcount(tree);
+        if (live.size() + fresh > MaxLive + gone.size()) { c.label("skip:parse-too-big"); break; }
+        if (c.verbose()) { std::string shown = text; for (auto &ch : shown) if (ch == '\n') ch = '|'; c.logf("  node_parse(conf=%d) text \"%s\" (%zu elements), releases %s", R, shown.c_str(), fresh, showv(gone).c_str()); }
+        FILE *fd = fmemopen(&text[0], text.size(), "r");
+        VP_CHECK(c, fd != 0, "harness-fmemopen", "fmemopen failed");
+        int r = mpt_node_parse(m.n[R].p, fd, 0, 0, 0);
+        fclose(fd);
+        VP_CHECK(c, r >= 0, "parse-refused", "mpt_node_parse refused a well-formed text (%d)", r);
+        std::set<const node *> old;
+        for (int s : live) old.insert(m.n[s].p);
+        std::vector<int> kids = addParsed(E, tree, R);
+        E.n[R].kids = kids;
+        bindParsed(c, w, E, R, m.n[R].p->children, old);
+        settle(c, w, E, none, gone, "node_parse");
+        c.label("op:node_parse");
+        if (!gone.empty()) { c.label("reload:into-populated"); nt = true; }
+        break;
+      }
+      case 1: {  // mpt_node_clear of children that still name another node as parent (the reload pattern)
+        if (owners2.empty()) { c.label("skip:no-owner"); break; }
+        int X = pickOf(c, owners2);
+        std::vector<int> det;
+        for (int s : live) if (m.detached(s) && s != X && !m.inSubtree(X, s)) det.push_back(s);
+        int D = (!det.empty() && c.flip()) ? pickOf(c, det) : -1;
+        std::vector<int> gone;
+        for (int k : m.n[X].kids) m.subtree(k, gone);
+        c.logf("  children of %d parked under a stack node, %s; node_clear(stack node) releases %s", X, D >= 0 ? fmtstr("node %d is the new child", D).c_str() : "no new children", showv(gone).c_str());
+        CObj<node> root;
+        root->children = m.n[X].p->children;
+        m.n[X].p->children = D >= 0 ? m.n[D].p : 0;
+        if (D >= 0) m.n[D].p->parent = m.n[X].p;
+        mpt_node_clear(root);
+        VP_CHECK(c, root->children == 0, "clear-leaves-children", "mpt_node_clear leaves a children link behind");
+        E.n[X].kids.clear();
+        if (D >= 0) { E.removeFromList(D); E.n[D].parent = X; E.n[X].kids.push_back(D); }
+        settle(c, w, E, none, gone, "node_clear(parked)");
+        c.label("op:clear-parked");
+        if (D >= 0) c.label("clear-parked:with-new-child");
+        nt = true;
+        break;
+      }
+      default: {  // cut the tail of a list, hang it below another node by forward links only, relink that node
+        std::vector<std::vector<int>> lists;
+        for (auto &t : m.tops) if (t.size() >= 2) lists.push_back(t);
+        for (int s : live) if (m.n[s].kids.size() >= 2) lists.push_back(m.n[s].kids);
+        if (lists.empty()) { c.label("skip:no-list"); break; }
+        std::vector<int> L = lists[c.pick(lists.size())];
+        size_t at = 1 + c.pick(L.size() - 1);
+        std::vector<int> tail(L.begin() + at, L.end());
+        std::vector<int> tg;
+        for (int s : live) {
+          bool ok = true;
+          for (int t : tail) if (m.inSubtree(s, t)) ok = false;
+          if (ok) tg.push_back(s);
+        }
+        if (tg.empty()) { c.label("skip:no-target"); break; }
+        int T = pickOf(c, tg);
+        // model first (the lists are looked up by member); what T has left after the cut decides where the tail goes
+        for (int t : tail) E.removeFromList(t);
+        int lastKid = E.n[T].kids.empty() ? -1 : E.n[T].kids.back();
+        bool first = lastKid < 0;
+        c.logf("  list %s cut in front of %d, tail %s hung %s node %d by forward links; gnode_relink(%d)", showv(L).c_str(), tail[0], showv(tail).c_str(), first ? "as children below" : "behind the children of", T, T);
+        for (int t : tail) { E.n[t].parent = T; E.n[T].kids.push_back(t); }
+        // forward links and children heads only, as the documentation of mpt_gnode_relink asks for
+        m.n[L[at - 1]].p->next = 0;
+        if (first) m.n[T].p->children = m.n[tail[0]].p;
+        else m.n[lastKid].p->next = m.n[tail[0]].p;
+        mpt_gnode_relink(m.n[T].p);
+        settle(c, w, E, none, nobody, "gnode_relink(surgery)");
+        c.label("op:relink-surgery");
+        if (first) c.label("surgery:tail-becomes-first-child");
+        nt = true;
+        break;
+      }
     }
   }
 
